@@ -125,6 +125,14 @@ thread_local! {
     static HSM_HANDLE: Cell<bool> = const { Cell::new(false) };
     static HSM_ROTATED: RefCell<Option<Vec<u8>>> = const { RefCell::new(None) };
     static HSM_ERR_FLAVOUR: Cell<u8> = const { Cell::new(0) };
+    static HSM_PAUSED: Cell<bool> = const { Cell::new(false) };
+}
+
+/// While paused, calls on the external key are neither logged, counted nor failed: used around
+/// decodes the *harness* makes for its own bookkeeping (identifying a literal message), which
+/// are not part of the simulated execution.
+pub fn hsm_pause(on: bool) {
+    HSM_PAUSED.with(|p| p.set(on));
 }
 
 /// Which error an injected failure carries: 0 = the key's own error type
@@ -185,6 +193,9 @@ pub fn hsm_faults_fired() -> usize {
 }
 
 fn hsm_note(call: HsmCall) -> Result<(), InternalError<HsmErr>> {
+    if HSM_PAUSED.with(|p| p.get()) {
+        return Ok(());
+    }
     HSM_LOG.with(|l| l.borrow_mut().push(call));
     match call {
         HsmCall::PublicKey | HsmCall::DiffieHellman | HsmCall::Deserialize => {
